@@ -12,6 +12,12 @@ use std::task::{Context, Poll, Wake, Waker};
 use std::time::Instant;
 use tarpc::{ClientMessage, Response};
 
+/// developer aid: record the option list of every step (MC_SHOW_OPTIONS), looked up once
+pub fn show_options() -> bool {
+    static SHOW: std::sync::OnceLock<bool> = std::sync::OnceLock::new();
+    *SHOW.get_or_init(|| std::env::var_os("MC_SHOW_OPTIONS").is_some())
+}
+
 // ---------------------------------------------------------------------------------------------
 // wakers
 
@@ -54,7 +60,8 @@ impl Flag {
     }
     /// A new waker for the poll that is about to start; the wakers of earlier polls stop counting.
     pub fn fresh_waker(self: &Arc<Self>) -> Waker {
-        if std::env::var_os("MC_SAME_WAKER").is_some() {
+        static SAME: std::sync::OnceLock<bool> = std::sync::OnceLock::new();
+        if *SAME.get_or_init(|| std::env::var_os("MC_SAME_WAKER").is_some()) {
             return Waker::from(self.clone());
         }
         let gen = self.gen.fetch_add(1, Ordering::SeqCst) + 1;
